@@ -164,6 +164,8 @@ def regen_for(module):
                     import gen_lex; gen_lex.startcond_table()
                 elif g == 'Gen_CommentRules':
                     import gen_lex; gen_lex.comment_rules()
+                elif g == 'Gen_LexRules':
+                    import gen_lex; gen_lex.lex_rules()
         except Exception as e:           # a translator that cannot read the source any more: the tie is broken, not the run
             errs.append((g, '%s: %s' % (type(e).__name__, e)))
     return errs
@@ -275,9 +277,9 @@ def build_extract(name, vfile, driver):
         # the modules the extraction file imports must be rebuilt against the regenerated tables first
         for line in open(src_v):
             m = re.match(r'\s*From\s+Utap(?:\.gen)?\s+Require\s+Import\s+(.*?)\.\s*$', line)
-            if m and 'Utap.gen' not in line:
+            if m:
                 for mod in m.group(1).split():
-                    ok, log = coq_build(mod)
+                    ok, log = coq_build(('gen/' if 'Utap.gen' in line else '') + mod)
                     if not ok:
                         return None, 'module %s does not build: %s' % (mod, log[-1500:])
         vos = [os.path.join(r, f) for r, _, fs in os.walk(os.path.join(COQ, 'theories')) for f in fs if f.endswith('.vo')]
